@@ -6,6 +6,8 @@ def jobs(tier):
     sys.path.insert(0,os.path.dirname(os.path.dirname(os.path.abspath(__file__))))
     from vlib.runner import Job
     J=_blk().blockin_jobs(tier)
+    from jobs_lib import other as _other
+    J+=_other('C02',tier,lambda j:j.name.startswith('K-synth'),fn='_jobs0')[:1]   # a reused block must not carry an earlier packet into a track-only step
     cfgs=[('stereo-coupled',2,1,'0,0',1,0,1),('three-2sub',3,2,'0,0,1',1,0,1)] if tier=='quick' else [('stereo-coupled',2,1,'0,0',1,0,1),('three-2sub',3,2,'0,0,1',1,0,1),('stereo-plain',2,1,'0,0',0,0,1),('five-2sub',5,2,'0,0,0,0,1',1,2,3),('mono',1,1,'0',0,0,0)]
     for wc in (0,1):
       J.append(Job('K-floor0-inv2-W%d'%wc,'C11/k_floor0_inv2.c',defs=['-DWC=%d'%wc],cuts={'floor0.c':['floor0_map_lazy_init']},unwind=36,unwindset=[('verif_memset',None,40)],object_bits=10,checks=['leak'],witnesses=['unused floor on a block size never rendered before','curve rendered'],
